@@ -29,7 +29,7 @@ typedef struct {
 
 static script_t SCR[24]; static int NSCR;
 static uint64_t (*BASE)[MAXSTEP];	/* baseline per-step trace hashes, shared memory */
-static int st_states, st_trans, st_exec, st_dn, st_pairs, st_triples;
+static int st_states, st_trans, st_exec, st_dn, st_pairs, st_triples, st_quads;
 
 /* a running instance of a script */
 typedef struct {
@@ -191,13 +191,13 @@ static void baseline_child (long it, void *arg)
 }
 
 /* ------------------------------------------------------------------ interleavings */
-typedef struct { int ns; int sc[3]; } combo_t;
+typedef struct { int ns; int sc[4]; int maxsw; } combo_t;
 static combo_t *CB; static long NCB;
 static int g_maxswitch;
 
 static void run_schedule (const combo_t *c, const unsigned char *sched, int len)
 {
-	inst_t x[3];
+	inst_t x[4];
 	int i, j;
 	char cs[VF_SLOT_LEN]; size_t l;
 	l = (size_t) snprintf (cs, sizeof cs, "scripts=");
@@ -230,7 +230,7 @@ static void enum_rec (const combo_t *c, int *left, unsigned char *sched, int pos
 	for (i = 0; i < c->ns; i++) {
 		int sw = switches + (last >= 0 && last != i ? 1 : 0);
 		if (!left[i]) continue;
-		if (g_maxswitch >= 0 && c->ns > 2 && sw > g_maxswitch) continue;
+		if (c->ns > 2 && sw > (c->maxsw ? c->maxsw : g_maxswitch)) continue;
 		left[i]--; sched[pos] = (unsigned char) i;
 		enum_rec (c, left, sched, pos + 1, total, i, sw);
 		left[i]++;
@@ -239,27 +239,27 @@ static void enum_rec (const combo_t *c, int *left, unsigned char *sched, int pos
 static void item (long it, void *arg)
 {
 	const combo_t *c = &CB[it];
-	int left[3] = {0, 0, 0}, total = 0, i;
-	unsigned char sched[3 * MAXSTEP];
+	int left[4] = {0, 0, 0, 0}, total = 0, i;
+	unsigned char sched[4 * MAXSTEP];
 	(void) arg;
 	vf_slot_set_prop ("C12");
 	if (vf_deadline_hit ()) { vf_incomplete ("deadline before combination %ld", it); return; }
 	for (i = 0; i < c->ns; i++) { left[i] = SCR[c->sc[i]].nsteps; total += left[i]; }
 	enum_rec (c, left, sched, 0, total, -1, 0);
 	vf_stat_add (st_states, 1);
-	vf_stat_add (c->ns == 2 ? st_pairs : st_triples, 1);
+	vf_stat_add (c->ns == 2 ? st_pairs : c->ns == 3 ? st_triples : st_quads, 1);
 }
 static void item_replay (long it, void *arg)
 {
 	const char *cs = vf_replay_case (), *p;
-	combo_t c; unsigned char sched[3 * MAXSTEP]; int len = 0;
+	combo_t c; unsigned char sched[4 * MAXSTEP]; int len = 0;
 	(void) it; (void) arg;
 	vf_slot_set_prop ("C12");
 	memset (&c, 0, sizeof c);
 	p = strstr (cs, "scripts="); if (!p) return; p += 8;
-	while (*p && *p != ' ' && c.ns < 3) { c.sc[c.ns++] = (int) strtol (p, (char **) &p, 10); if (*p == ',') p++; }
+	while (*p && *p != ' ' && c.ns < 4) { c.sc[c.ns++] = (int) strtol (p, (char **) &p, 10); if (*p == ',') p++; }
 	p = strstr (cs, "schedule="); if (!p) return; p += 9;
-	while (*p >= '0' && *p <= '2' && len < (int) sizeof sched) sched[len++] = (unsigned char) (*p++ - '0');
+	while (*p >= '0' && *p <= '3' && len < (int) sizeof sched) sched[len++] = (unsigned char) (*p++ - '0');
 	run_schedule (&c, sched, len);
 }
 
@@ -269,7 +269,7 @@ int main (int argc, char **argv)
 	vf_init (argc, argv);
 	thorough = vf_tier_thorough ();
 	st_states = vf_stat_id ("states"); st_trans = vf_stat_id ("transitions"); st_exec = vf_stat_id ("executions"); st_dn = vf_stat_id ("distinct_nontrivial");
-	st_pairs = vf_stat_id ("pairs"); st_triples = vf_stat_id ("triples");
+	st_pairs = vf_stat_id ("pairs"); st_triples = vf_stat_id ("triples"); st_quads = vf_stat_id ("quadruples");
 	build_catalogue ();
 	BASE = mmap (NULL, sizeof (uint64_t) * MAXSTEP * 24, PROT_READ | PROT_WRITE, MAP_SHARED | MAP_ANONYMOUS, -1, 0);
 	for (a = 0; a < NSCR; a++) {
@@ -284,9 +284,16 @@ int main (int argc, char **argv)
 	}
 	g_maxswitch = (int) vf_opt_long ("switches", thorough ? 5 : 3);
 	if (vf_replay_case ()) { vf_pool_run (1, item_replay, NULL, 120); vf_finish (); return 0; }
-	CB = malloc (sizeof (combo_t) * 8192);
+	CB = calloc (16384, sizeof (combo_t));
 	for (a = 0; a < NSCR; a++) for (b = a; b < NSCR; b++) { CB[NCB].ns = 2; CB[NCB].sc[0] = a; CB[NCB].sc[1] = b; NCB++; }
 	for (a = 0; a < NSCR; a++) for (b = a; b < NSCR; b++) for (c = b; c < NSCR; c++) { if (!thorough && a == b && b == c) continue; CB[NCB].ns = 3; CB[NCB].sc[0] = a; CB[NCB].sc[1] = b; CB[NCB].sc[2] = c; NCB++; }
+	{	/* four sessions alive at once: every set of four distinct scripts, each script run in one or two pieces (<= 3 / 4 switches) */
+		int d;
+		for (a = 0; a < NSCR; a++) for (b = a + 1; b < NSCR; b++) for (c = b + 1; c < NSCR; c++) for (d = c + 1; d < NSCR; d++) {
+			if (!thorough && ((a + b + c + d) % 3)) continue;
+			CB[NCB].ns = 4; CB[NCB].sc[0] = a; CB[NCB].sc[1] = b; CB[NCB].sc[2] = c; CB[NCB].sc[3] = d; CB[NCB].maxsw = thorough ? 4 : 3; NCB++;
+		}
+	}
 	vf_note ("%d scripts, %ld combinations (pairs: all interleavings; triples: <= %d context switches)", NSCR, NCB, g_maxswitch);
 	vf_pool_run (NCB, item, NULL, 0);
 	vf_stat_add (st_dn, vf_stat_get (st_exec));
